@@ -1,7 +1,7 @@
 #!/bin/bash
 # Instantiates the SMTP-session part of the model runners (ml/smtp_part.ml.inc) for every property it serves.
 cd "$(dirname "$0")"
-for p in C01 C03 C06 C05; do
+for p in C01 C03 C06 C05 C17; do
   low=$(echo $p | tr A-Z a-z)
   main=smtp_main.ml.inc; [ -f ${low}_main.ml.inc ] && main=${low}_main.ml.inc
   cat smtp_part.ml.inc $main | sed -e "s/@PID@/$p/g" -e "s/@MOD@/${p:0:1}${low:1}/g" > ${low}_run.ml
